@@ -522,3 +522,36 @@ Definition chain_construct (ts: list stype) (i: nat) (x: sval) (expected: res sv
   | Some T => outcome_eqb (construct T x) expected
   | None => false
   end.
+
+(* ---------------------------------------------------------------------------------------- *)
+(* SEQUENCE / SET values as isInconsistent shows them to the constraints                     *)
+
+(* A component slot of a record value: never touched (noValue), instantiated as a schema object by
+   a read (getComponentByName/Position, iteration, values(), and so by every encoder) but never
+   assigned, or holding a value. *)
+Inductive slot := Unset | ReadOnly | Assigned (v: sval).
+Definition record := list (sval * slot).
+
+(* reading every component: what any traversal of the record does to it *)
+Definition read_all (r: record) : record :=
+  map (fun ks => (fst ks, match snd ks with Unset => ReadOnly | s => s end)) r.
+
+(* SequenceAndSetBase.isInconsistent as repaired by fixes/F14d.diff: only components that are
+   values go into the mapping handed to subtypeSpec (the same test the encoders use to leave an
+   OPTIONAL component out) *)
+Definition mapping (r: record) : list (sval * sval) :=
+  flat_map (fun ks => match snd ks with Assigned v => [(fst ks, v)] | _ => [] end) r.
+(* before the repair: everything but noValue is "present"; the schema object's payload plays no
+   part in the presence and size constraints this definition is used with *)
+Definition mapping_unrepaired (r: record) : list (sval * sval) :=
+  flat_map (fun ks => match snd ks with
+                      | Assigned v => [(fst ks, v)]
+                      | ReadOnly => [(fst ks, SBytes [])]
+                      | Unset => []
+                      end) r.
+
+(* what an encoder does first with a record value: refuse it if its constraints reject it *)
+Definition encoder_admits (spec: cspec) (r: record) : verdict :=
+  ceval (sp_constr spec) None (VMap (mapping r)).
+Definition encoder_admits_unrepaired (spec: cspec) (r: record) : verdict :=
+  ceval (sp_constr spec) None (VMap (mapping_unrepaired r)).
